@@ -9,6 +9,7 @@ import (
 	"encoding/json"
 	"fmt"
 	"html"
+	"io"
 	"strings"
 	"testing"
 
@@ -48,7 +49,16 @@ func goData(c Case) map[string]any {
 	return m
 }
 
+// poison runs a render that fails half-way through an interpolated text and attribute, right
+// before the render under test: whatever the failed render left in process-global pools must
+// not show up in the next document.
+func poison() {
+	_ = vuego.New().Fill(map[string]any{"n": "x"}).RenderString(context.Background(), io.Discard,
+		`<p title="POISONATTR {{ n | nosuchfilter }}">POISONTEXT {{ n }} {{ n | nosuchfilter }}</p>`)
+}
+
 func render(c Case) (string, error) {
+	poison()
 	var buf bytes.Buffer
 	ctx := context.Background()
 	d := goData(c)
